@@ -28,7 +28,7 @@ CHECKS["C07"] = {
             "configurations on the real turn.Server in virtual time; after every event the response and a probe sweep in both directions "
             "(3 peers incl. same-IP-other-port, 2 channel numbers) are compared with the reference model whose entries live exactly one timeout "
             "past the last successful install/refresh; then a drain through every remaining deadline at -1ns/+1ns. Part sched (Engine B, <= 2/3 preemptions): a CreatePermission / ChannelBind that refreshes an existing entry 1 ns before its timer fires, callbacks yielding: if it is answered with success, data sent half a timeout later is relayed.",
-    "parts": [A("vtx", "./checks/c07", "TestC07", budget={"quick": 90, "thorough": 1500}),
+    "parts": [A("vtx", "./checks/c07", "TestC07", budget={"quick": 180, "thorough": 1500}),
               A("bfs", "./checks/c07", "TestC07BFS", tiers=["thorough"], budget={"thorough": 1500}),
               A("sched", "./checks/bsem", "TestC07Sched", overlay=True, gomaxprocs=1, budget={"quick": 90, "thorough": 900})],
 }
@@ -43,7 +43,7 @@ CHECKS["C01"] = {
             "{allow, deny-IP(B), deny-all} x timeout configurations, on the real turn.Server in virtual time; " + SWEEP +
             "C01 judges: datagrams arriving at peers that the model does not authorise (wrong source included) and permissions/bindings accepted against policy or address family. "
             "Part connect: two TCP allocations on a stream listener x policies {deny-B, deny-all, allow}, depth 3/4 over Connect A/B, CreatePermission, inbound peer connections, ConnectionBind, Refresh0: a refused Connect target is answered with an error and never dialled.",
-    "parts": [A("vtx", "./checks/c01", "TestC01", budget={"quick": 90, "thorough": 1500}),
+    "parts": [A("vtx", "./checks/c01", "TestC01", budget={"quick": 150, "thorough": 1500}),
               A("bfs", "./checks/c01", "TestC01BFS", tiers=["thorough"], budget={"thorough": 1500}),
               A("connect", "./checks/c01", "TestC01Connect", budget={"quick": 60, "thorough": 900}),
               A("dual", "./checks/c01", "TestC01Dual", budget={"quick": 60, "thorough": 900})],
@@ -52,7 +52,7 @@ CHECKS["C02"] = {
     "level": "model_checking",
     "rule": "Engine A: same state space as C01 (two clients, peers A, A' (same IP other port), B (other IP same port), V6; three policies; timeout configurations); " + SWEEP +
             "C02 judges: anything a client receives because of a peer datagram that the model does not authorise (unpermitted sender, wrong client, wrong encapsulation/attribution).",
-    "parts": [A("vtx", "./checks/c02", "TestC02", budget={"quick": 90, "thorough": 1500}),
+    "parts": [A("vtx", "./checks/c02", "TestC02", budget={"quick": 150, "thorough": 1500}),
               A("bfs", "./checks/c02", "TestC02BFS", tiers=["thorough"], budget={"thorough": 1500}),
               A("sched", "./checks/bsem", "TestC02Sched", overlay=True, gomaxprocs=1, budget={"quick": 90, "thorough": 1500})],
 }
@@ -81,7 +81,7 @@ CHECKS["C08"] = {
     "rule": "Engine A: every sequence (depth 3 quick / 4 thorough, after two Allocates) of ChannelBind over numbers {0x4000,0x4001,0x7FFF,0x3FFF,0x8000,0,0xFFFF} x peers {A, A' (port differs), B}, "
             "second client binds, clock advances around expiry; " + SWEEP + "Plus: all 65536 channel numbers bound on a fresh allocation, each followed by a sweep. "
             "Model: accepted iff number in [0x4000,0x7FFF]; conflicts get 400 and change nothing; identical re-bind refreshes.",
-    "parts": [A("vtx", "./checks/c08", "TestC08", budget={"quick": 90, "thorough": 1500}),
+    "parts": [A("vtx", "./checks/c08", "TestC08", budget={"quick": 150, "thorough": 1500}),
               A("bfs", "./checks/c08", "TestC08BFS", tiers=["thorough"], budget={"thorough": 1500}),
               A("all-numbers", "./checks/c08", "TestC08AllNumbers", budget={"quick": 60, "thorough": 300})],
 }
@@ -138,7 +138,7 @@ CHECKS["C10"] = {
             "an invalid start yields an error, and a cap on results detects zero-length loops. TCPAllocation.BindConnection on a scripted conn: 6 replies x 3 trailers x whole/byte-at-a-time/every single and double cut "
             "(thorough triple): verdict independent of segmentation and trailing application bytes left unread. A class is (frame reference classes x segmentation kind x read buffer) or (reply x trailer x segmentation kind). Every (stream, segmentation, buffer) case is also run with the two other legal io.Reader behaviours of the underlying connection: the final bytes returned together with io.EOF (crypto/tls before a close_notify) - no frame may be lost - "
             "and 8 empty (0, nil) reads before every data read (pion/dtls empty records; short streams) - same frames, and the call stack must not grow with the number of empty reads. Part twobinds: two ConnectionBind transactions of one TCP allocation in flight: the first reply cut at every offset, the second bind (other reply kind) run completely between the two segments; each verdict is that of its own reply.",
-    "parts": [A("framer", "./checks/c10", "TestC10Framer", budget={"quick": 60, "thorough": 900}),
+    "parts": [A("framer", "./checks/c10", "TestC10Framer", budget={"quick": 150, "thorough": 900}),
               A("bindreply", "./checks/c10", "TestC10BindReply", budget={"quick": 30, "thorough": 60}),
               A("twobinds", "./checks/c10", "TestC10TwoBinds", nshards=1, budget={"quick": 30, "thorough": 60})],
 }
